@@ -556,4 +556,5 @@ func runC06(c *Ctx) {
 		c.R.Count("writer_results_overwritten_by_caller", int64(2*len(cases)))
 	}
 	c.R.Sample(map[string]any{"write": "units=-5 exp=3", "text": num.MakeAmount(-5, 3).String(), "percentage_text": num.MakePercentage(-5, 3).String()})
+	c.Require("reads:json-quoted", "writes:MarshalText", "writer_results_overwritten_by_caller")
 }
